@@ -54,7 +54,7 @@ func (t *ServerTransport) Send(packets ...*parser.Packet) {
 	}
 }
 
-func (t *ServerTransport) send(packet *parser.Packet) error {
+func (t *ServerTransport) send(packet *parser.Packet) (err error) {
 	var mt websocket.MessageType
 	if packet.IsBinary {
 		mt = websocket.MessageBinary
@@ -66,7 +66,15 @@ func (t *ServerTransport) send(packet *parser.Packet) error {
 	if err != nil {
 		return err
 	}
-	defer w.Close()
+	defer func() {
+		// The message is written when the writer is closed. If that fails,
+		// the message is not sent, and the writer stays locked. Report the error
+		// so that the transport gets closed. Otherwise the next `send` blocks forever.
+		closeErr := w.Close()
+		if err == nil {
+			err = closeErr
+		}
+	}()
 	return packet.Encode(w, true)
 }
 
